@@ -74,7 +74,7 @@ Definition dnsname_match (dn hostname : str) : dres :=
             | h0 :: hrest =>
                 if str_eqb leftmost [STAR] then
                   DMatch (negb (Nat.eqb (length h0) 0) && all_ieq remainder hrest)
-                else if starts_with XN leftmost || starts_with XN hostname then
+                else if starts_with XN (ascii_lower leftmost) || starts_with XN (ascii_lower hostname) then
                   DMatch (ieq dn hostname)             (* the pattern is the literal name *)
                 else
                   DMatch (wild_label_match leftmost h0 && all_ieq remainder hrest)
